@@ -71,6 +71,7 @@ macro_rules! run_pcf {
 #[kani::proof]
 #[kani::unwind(4)]
 #[kani::stub(alloc::fmt::format, stub_format)]
+#[kani::stub(core::fmt::write, stub_fmt_write)]
 fn x08_pcf_enum() {
 	let expect = b"{\"name\":\"ab.E\",\"type\":\"enum\",\"symbols\":[\"A\",\"B\"]}";
 	let (ok, len) = run_pcf!(
@@ -99,6 +100,7 @@ fn x08_pcf_enum() {
 #[kani::proof]
 #[kani::unwind(4)]
 #[kani::stub(alloc::fmt::format, stub_format)]
+#[kani::stub(core::fmt::write, stub_fmt_write)]
 fn x08_pcf_record() {
 	let expect = b"{\"name\":\"ab.R\",\"type\":\"record\",\"fields\":[{\"name\":\"f\",\"type\":\"long\"}]}";
 	let (ok, len) = run_pcf!(
@@ -125,6 +127,7 @@ fn x08_pcf_record() {
 #[kani::proof]
 #[kani::unwind(4)]
 #[kani::stub(alloc::fmt::format, stub_format)]
+#[kani::stub(core::fmt::write, stub_fmt_write)]
 fn x08_pcf_array() {
 	let expect = b"{\"type\":\"array\",\"items\":\"long\"}";
 	let (ok, len) = run_pcf!(
